@@ -1047,21 +1047,17 @@ theorem elementwise_same_class (c : ECall) (k : CKind) (t : Nat) (xs : List Term
   rw [ha] at hw
   cases k <;> simp_all [BArg.wf, CKind.isIterable, CKind.isStr, CKind.isSomeGen, CKind.isStream, bcastKind]
 
-/-- the builtin class a subclass of this base would be downcast to -/
-def builtinOf : CBase → CKind
-  | .list => .list | .tuple => .tuple | .set => .set | .frozenset => .frozenset | .deque => .deque | .sequence => .list
-
 /-- **C01.10b** subclasses: whatever the base (list, tuple, set, frozenset, deque, user Sequence) and the class,
 by position or by keyword: the result is of class `sub base cls` and holds the function applied to every item -/
 theorem elementwise_subclass (c : ECall) (b : CBase) (cls t : Nat) (xs : List Term)
     (ha : c.arg = .sized (.sub b cls) t xs) (hf : c.found = true) :
     ∃ left, elementwise c = .cast (.sub b cls) (xs.map c.callWith) left ∧ left.unread = [(t, 0)] ∧
-      (elementwise c).kind ≠ .same (builtinOf b) := by
+      (elementwise c).kind ≠ .same b.builtin := by
   have hw : c.arg.wf = true := by rw [ha]; rfl
   obtain ⟨left, he, hu⟩ := elementwise_cast c _ t xs ha hw hf
   refine ⟨left, he, hu, ?_⟩
   rw [he]
-  cases b <;> simp [BOut.kind, builtinOf]
+  cases b <;> simp [BOut.kind, CBase.builtin]
 
 /-- non-vacuity: `class Vector(tuple)` (class number 3) by keyword -/
 example : (elementwise ⟨n!"sqrt", n!"x", some 0, [], [(n!"x", .atom 0)], .sized (.sub .tuple 3) 1 [.atom 1, .atom 2]⟩).kind =
